@@ -53,10 +53,22 @@ type cfgSpec struct {
 	// list holds a different ("old") token and is then switched to this
 	// configuration by the production reload path (reloadConfig → loadAuth).
 	Reload bool `json:"after_reload_from_old_tokens,omitempty"`
+	// From (reload_test.go): the application is booted with THAT configuration and then asked to reload this one
+	// through the production reload path. Refused records what the tree answered (filled in by the first boot of
+	// the world): the reload was rejected, so the From configuration must still be fully in force.
+	From    *fromSpec `json:"reloaded_from,omitempty"`
+	Refused bool      `json:"reload_refused,omitempty"`
 }
 
 func (c cfgSpec) label() string {
-	return fmt.Sprintf("%s/%s/%s%s g=%v a=%v b=%v%s adm=%v", c.Alpha, c.Deploy, c.Src, map[bool]string{true: "/after-reload"}[c.Reload], c.Global, c.A, c.B,
+	hist := map[bool]string{true: "/after-reload"}[c.Reload]
+	if c.From != nil {
+		hist = fmt.Sprintf("/after-reload-from(%s g=%v a=%v b=%v adm=%v)", c.From.Deploy, c.From.Global, c.From.A, c.From.B, c.From.Admin)
+	}
+	if c.Refused {
+		hist += "/reload-was-refused"
+	}
+	return fmt.Sprintf("%s/%s/%s%s g=%v a=%v b=%v%s adm=%v", c.Alpha, c.Deploy, c.Src, hist, c.Global, c.A, c.B,
 		func() string {
 			if c.HasC {
 				return fmt.Sprintf(" c=%v", c.C)
@@ -190,7 +202,8 @@ const payloadMarker = "C11-SECRET-PAYLOAD"
 var seededIDs = []string{"c11-qa", "c11-qb", "c11-la", "c11-lb", "c11-da", "c11-db", "c11-ca", "c11-cb"}
 
 type world struct {
-	spec   cfgSpec
+	spec    cfgSpec
+	decided bool // spec.Refused is authoritative (replay/recheck, or after the first boot)
 	slot   int
 	dir    string
 	ad     addrs
@@ -204,6 +217,8 @@ type world struct {
 	dirty  bool
 	boots  int
 	closed bool
+
+	primersPassed, primersRefused int
 }
 
 func newWorld(spec cfgSpec, slot int, dir string) *world {
@@ -232,10 +247,9 @@ func (w *world) fresh() error {
 	w.ad = nextAddrs()
 	w.text = dsl(w.spec, w.ad, filepath.Join(w.dir, "tok"))
 	bootText := w.text
-	if w.spec.Reload {
-		old := w.spec
-		old.Global, old.A, old.B, old.Admin = []string{oldTokens[0]}, []string{oldTokens[1]}, []string{oldTokens[2]}, []string{oldTokens[3]}
-		bootText = dsl(old, w.ad, filepath.Join(w.dir, "tok"))
+	from := w.spec.from()
+	if from != nil {
+		bootText = dsl(w.spec.withLists(*from), w.ad, filepath.Join(w.dir, "tok"))
 	}
 	a, err := app.VerifBoot(app.VerifBootOptions{Dir: filepath.Join(w.dir, "boot"), ConfigText: bootText, Store: w.store})
 	if err != nil {
@@ -243,12 +257,16 @@ func (w *world) fresh() error {
 	}
 	w.app = a
 	w.boots++
-	if w.spec.Reload {
+	if from != nil {
 		if err := os.WriteFile(a.ConfigPath, []byte(w.text), 0o644); err != nil {
 			return err
 		}
-		if !a.Reload("c11") {
-			return fmt.Errorf("reload to %s was refused", w.spec.label())
+		applied := a.Reload("c11")
+		switch {
+		case !w.decided:
+			w.spec.Refused, w.decided = !applied, true
+		case applied == w.spec.Refused:
+			return fmt.Errorf("reload to %s: applied=%v differs from the recorded outcome", w.spec.label(), applied)
 		}
 	}
 	if a.Pull == nil || a.Admin == nil {
